@@ -235,6 +235,20 @@ func runC16(c *core.Ctx, ck *Check) {
 				pn *eco.Panic
 			}
 			baseRes := make([]br, len(probes))
+			if b%4 == 2 {
+				// a REJECTED sibling first: the same constraints followed by one the ecosystem rejects (a typo, then the
+				// correction). Whatever a failed evaluation leaves behind (pooled scratch sets, half-filled tables) must
+				// not leak into the evaluation of the base spelling
+				gs := []string{"..", "-", "..1", "@@", "+", "~", ".", "_", "a..b", "-.-"}
+				_, v := splitVersCons(parts[k-1])
+				for tries := 0; tries < 6; tries++ {
+					sib := base + "|" + versOps[r.IntN(len(versOps))] + v + gs[r.IntN(len(gs))]
+					if _, err, _ := eco.SafeVersContains(sib, p.Strs[probes[0]]); err != nil {
+						w.Count("rejected_sibling_pretouches", 1)
+						break
+					}
+				}
+			}
 			if b%2 == 1 {
 				// twin questions first (the same two texts glued together, split at another place): an answer kept under a
 				// key without separator must not be served to the base spelling
@@ -258,12 +272,20 @@ func runC16(c *core.Ctx, ck *Check) {
 					g2, e2, p2 := eco.SafeVersContains(a.text, p.Strs[pi])
 					w.Count("evaluations", 1)
 					w.Count("transform:"+a.kind, 1)
-					if p1 != nil || e1 != nil {
+					if p1 != nil || (e1 != nil && (e2 != nil || p2 != nil)) {
 						continue
 					}
-					if p2 != nil || e2 != nil || g1 != g2 {
+					// the base spelling was accepted a moment ago (acceptance check above): an error now, while a
+					// respelling is answered, is a difference like any other
+					if e1 != nil || p2 != nil || e2 != nil || g1 != g2 {
 						if reported[a.kind] < 5 {
-							for _, v := range evalC16(c, nil, "vers-meta", []string{base, a.text, p.Strs[pi], a.kind}) {
+							vs := evalC16(c, nil, "vers-meta", []string{base, a.text, p.Strs[pi], a.kind})
+							if len(vs) == 0 {
+								// not reproducible when asked again: the first answer depended on what an earlier call left behind
+								vs = []core.Violation{{Eco: "vers", Op: "vers-meta", Args: []string{base, a.text, p.Strs[pi], a.kind}, Rule: a.kind + ":answer-depended-on-earlier-calls",
+									Got: b2s(g2) + "," + errNil(e2), Want: b2s(g1) + "," + errNil(e1), Detail: "want = first answer for the base spelling, got = answer for the respelling; asked again, both agree"}}
+							}
+							for _, v := range vs {
 								reported[a.kind]++
 								w.Report(v)
 							}
